@@ -1502,10 +1502,25 @@ pub fn do_bad_join(w: &mut World, variant: u64, q: usize, g: usize) -> VResult<b
                 if tree_ext || t.is_empty() {
                     return Ok(false);
                 }
-                let mut t2 = t.clone();
-                let i = r.usize_below(t2.len());
-                t2[i] ^= 1 << r.below(8);
-                (wb.clone(), Some(t2), true, format!("tree byte {i}"))
+                let body = crate::refmls::Rd::new(&t).vec().ok().map(|b| b.to_vec());
+                match (r.chance(1, 3), body) {
+                    (true, Some(mut body)) => {
+                        // blank nodes appended on the way (and the length prefix adjusted): inside the width of the
+                        // tree this changes no hash, only the rule that a tree does not end in blank nodes notices it
+                        let k = *r.pick(&[1usize, 2, 2, 4, 6]);
+                        body.extend(std::iter::repeat(0u8).take(k));
+                        let mut t2 = vec![];
+                        crate::refmls::put_vec(&mut t2, &body);
+                        w.stats.probe("tree-with-appended-blank-nodes-offered");
+                        (wb.clone(), Some(t2), true, format!("{k} blank node(s) appended to the tree"))
+                    }
+                    _ => {
+                        let mut t2 = t.clone();
+                        let i = r.usize_below(t2.len());
+                        t2[i] ^= 1 << r.below(8);
+                        (wb.clone(), Some(t2), true, format!("tree byte {i}"))
+                    }
+                }
             } else {
                 // Welcome layout: version, wire format, cipher suite, secrets<V> { (key package ref<V>, kem output<V>,
                 // ciphertext<V>)* }, encrypted_group_info<V>
